@@ -1,6 +1,11 @@
 pub mod refdec;
+pub mod c24;
+pub mod c25;
+pub mod c26;
 pub mod c27;
+pub mod c28;
+pub mod c29;
 
 pub fn checks() -> Vec<vf_core::Check> {
-    vec![c27::check()]
+    vec![c24::check(), c25::check(), c26::check(), c27::check(), c28::check(), c29::check()]
 }
